@@ -61,7 +61,11 @@ def predicate(h):
                     continue
                 if p[2] != q[2] and p[3] != q[3]:
                     tid = h["target_ids"][i]
-                    if tid is not None and (tid in p[4] or tid in p[5]):
+                    # "a change made to the copy" = a call on an entity the copy (or the source) OWNS; a call on a third
+                    # entity both sides merely link to (a source both tags list, deleted from the source tree) legitimately
+                    # shows on both sides
+                    own = (p[6], p[7]) if len(p) > 7 else (p[4], p[5])
+                    if tid is not None and (tid in own[0] or tid in own[1]):
                         out.append(("one call changed both the source and its copy", i,
                                     {"op": op, "copy_step": p[0], "kept_ids": p[1]}))
     for p in (h.get("xfile") or {}).get("problems", []):
